@@ -75,6 +75,12 @@ class Wrap:
     c: Optional[Child] = field(default=None, metadata={"type": "Element"})
     t: Optional[str] = field(default=None, metadata={"type": "Attribute"})
 ''',
+    "AnyChild": '''
+@dataclass
+class AnyChild:
+    any: List[object] = field(default_factory=list, metadata={"type": "Wildcard", "namespace": "##any"})
+    k: Optional[str] = field(default=None, metadata={"type": "Attribute"})
+''',
     "TextChild": '''
 @dataclass
 class TextChild:
@@ -96,7 +102,7 @@ INNER_HELPERS = {
 ''',
 }
 HELPER_DEPS = {"Derived": ["Child"], "Wrap": ["Child"]}
-HELPER_ORDER = ["Color", "Num", "QEnum", "Child", "Derived", "NsChild", "Other", "Wrap", "TextChild"]
+HELPER_ORDER = ["Color", "Num", "QEnum", "Child", "Derived", "NsChild", "Other", "Wrap", "AnyChild", "TextChild"]
 
 # ---------------------------------------------------------------------------------------
 # scalar type table: key -> (annotation, value expressions simplest first, format, helpers, tags)
@@ -104,7 +110,7 @@ HELPER_ORDER = ["Color", "Num", "QEnum", "Child", "Derived", "NsChild", "Other",
 CR_VALUES = ["'x\\ry'", "'\\r\\n'"]
 
 SCALARS: "OrderedDict[str, dict]" = OrderedDict([
-    ("str", dict(ann="str", vals=["'a'", "''", "' a b '", "'a&<>\"\\'b'", "']]>'", "'x\\ty\\nz'", "'\\U0001F600\\u00e9'", "'\\rx\\r\\ry\\r'"])),
+    ("str", dict(ann="str", vals=["'a'", "''", "' a b '", "'a&<>\"\\'b'", "']]>'", "'x\\ty\\nz'", "'\\U0001F600\\u00e9'", "'\\rx\\r\\ry\\r'", "'caf\\u00e9'"])),
     ("int", dict(ann="int", vals=["1", "0", "-1", "2**63"])),
     ("bool", dict(ann="bool", vals=["True", "False"])),
     ("float", dict(ann="float", vals=["1.5", "-0.0", "1e22", "float('inf')", "float('nan')"])),
@@ -356,7 +362,7 @@ def gen_field(ch: Chooser, i: int, frozen: bool, cats: list[str], scalar_keys: l
         # a single field without "type" metadata is a Text field by default
         return FieldSpec(name, "Optional[str]", "None", {}, ["'a'", "None"], cat, [], tags | {"default-type"})
     if cat == "model":
-        cls = ch.pick(["Child", "NsChild", "TextChild", "Inner"], f"{name}.class")
+        cls = ch.pick(["Child", "NsChild", "TextChild", "Inner", "AnyChild"], f"{name}.class")
         arity = ch.pick(["optional", "list", "required"], f"{name}.arity")
         nillable = ch.flag(f"{name}.nillable")
         ns = ch.pick([None, "", NS_O], f"{name}.ns")
@@ -380,6 +386,9 @@ def gen_field(ch: Chooser, i: int, frozen: bool, cats: list[str], scalar_keys: l
         elif cls == "NsChild":
             vals = ["NsChild(v='a')", "NsChild()", "NsChild(q=QName('{urn:c}z'))", "NsChild(v='b', q=QName('{urn:q}y'))"]
             tags.add("qname")
+        elif cls == "AnyChild":
+            vals = ["AnyChild(any=[AnyElement(qname='x', text='t')])", "AnyChild()", "AnyChild(any=[AnyElement(qname='x', text='t'), AnyElement(qname='{urn:w}y', text='', attributes={'k': 'v'})], k='z')"]
+            tags.add("generic-child")
         elif cls == "Inner":
             vals = ["Root.Inner(v='a')", "Root.Inner()", "Root.Inner(v='', n=5)"]
             tags.add("inner")
@@ -487,7 +496,7 @@ def gen_field(ch: Chooser, i: int, frozen: bool, cats: list[str], scalar_keys: l
         }
         return FieldSpec(name, {"single": "Optional[object]", "list": L % "object", "mixed": L % "object"}[variant],
                          "None" if variant == "single" else lf, {**meta, **({"mixed": "True"} if variant == "mixed" else {})},
-                         ["<wild>"], cat, [], tags | {"wild-alphabet"})
+                         ["<wild>"], cat, ["Other"], tags | {"wild-alphabet"})
     if cat == "attributes":
         ns = ch.pick([None, "##any", "##other", "##local"], f"{name}.ns")
         meta = {"type": "'Attributes'"}
@@ -662,11 +671,15 @@ def wild_values(spec: ModelSpec, f: FieldSpec) -> list[str]:
                      (NS_O, ["AnyElement(qname='{urn:o}x', text='t')"])):
         if admits(uri):
             pool += lst
+    if admits(parent) and not parent and variant in ("single", "list") and spec.module_ns is None:
+        # (with a module __NAMESPACE__ the class's lookup name is {module ns}Other, which an unqualified element is not)
+        # a child that the wildcard binds to a known model class (located by element name)
+        pool.append("Other(x=1)")
     if not pool:
         raise Prune("wildcard admits nothing from the alphabet")
     frozen = spec.frozen
     if variant == "single":
-        return [pool[0], "None"] + pool[1:3]
+        return [pool[0], "None"] + pool[1:3] + (["Other(x=1)"] if "Other(x=1)" in pool else [])
     if variant == "list":
         return _listvals(pool, frozen)
     # mixed: text interleaved with elements
